@@ -31,6 +31,8 @@ type Limits struct {
 	// writer or reader thousands of times per file cannot afford the table
 	// set-up of the high levels (lz4 HC, zstd best)
 	CheapCodecs bool
+	// Rejects lets the workload contain calls the writer must refuse
+	Rejects bool
 }
 
 var Quick = Limits{MaxOps: 40, MaxPayload: 3000, MaxTotal: 40000}
@@ -229,7 +231,27 @@ func Workload(t *rapid.T, lim Limits) scen.Workload {
 		channelOps = append(channelOps, op)
 		return op, true
 	}
+	enRejects := lim.Rejects && rapid.Bool().Draw(t, "en_rejects")
 	for iter := 0; iter < nOps*4 && len(wl.Ops) < nOps; iter++ {
+		if enRejects && rapid.IntRange(0, 9).Draw(t, "reject") == 0 {
+			// a call that must be refused and leave no trace
+			switch pick(t, "reject.kind", 0, 0, 1, 2) {
+			case 0: // message on a channel that was never written
+				id := uint16(40000 + rapid.IntRange(0, 9).Draw(t, "reject.ch"))
+				if _, ok := channelByID[id]; !ok {
+					wl.Ops = append(wl.Ops, scen.Op{Kind: scen.OpMessage, ChannelID: id, Sequence: 4000000 + uint32(iter), LogTime: timestamp(t, "reject.log", timeMode, &tcounter, lim),
+						Data: blob(t, "reject.data", lim, &budget, scen.Mix(9, uint64(iter))), Reject: true})
+				}
+			case 1: // channel referring to an unknown schema
+				sid := uint16(41000 + rapid.IntRange(0, 9).Draw(t, "reject.sid"))
+				if _, ok := schemaByID[sid]; !ok {
+					wl.Ops = append(wl.Ops, scen.Op{Kind: scen.OpChannel, ID: uint16(42000 + iter%100), SchemaID: sid, Topic: "/rejected", Reject: true})
+				}
+			default: // schema with id 0
+				wl.Ops = append(wl.Ops, scen.Op{Kind: scen.OpSchema, ID: 0, Name: "zero", Reject: true})
+			}
+			continue
+		}
 		k := rapid.IntRange(0, 99).Draw(t, "op")
 		switch {
 		case k < 8:
@@ -286,7 +308,7 @@ func Workload(t *rapid.T, lim Limits) scen.Workload {
 
 func containsOp(ops []scen.Op, op scen.Op) bool {
 	for _, o := range ops {
-		if o.Kind == op.Kind && o.ID == op.ID {
+		if o.Kind == op.Kind && o.ID == op.ID && !o.Reject {
 			return true
 		}
 	}
@@ -297,7 +319,7 @@ func writtenChannels(ops []scen.Op) []uint16 {
 	var out []uint16
 	seen := map[uint16]bool{}
 	for _, o := range ops {
-		if o.Kind == scen.OpChannel && !seen[o.ID] {
+		if o.Kind == scen.OpChannel && !seen[o.ID] && !o.Reject {
 			seen[o.ID] = true
 			out = append(out, o.ID)
 		}
